@@ -1,36 +1,18 @@
-import MongoModel.Wire
-import MongoModel.Filter
-import Spec.MatchDomain
-import Spec.MatchClasses
-open MongoModel MongoModel.Wire
+/-
+  mmdriver — line protocol driver: one case per input line, one answer per output line.
+  Each property contributes `Driver/<Id>.lean` with a handler `List String → Option (List String)`
+  (`none` = not my command).
+-/
+import Driver.C01
+open MongoModel.Wire
+
+def handlers : List (List String → Option (List String)) :=
+  [Driver.handleC01]
 
 def handle (ts : List String) : List String :=
-  match ts with
-  | "echo" :: r =>
-    match parseVal r with
-    | some (v, []) => showVal v
-    | _ => ["?parse"]
-  | "pyeq" :: r =>
-    match parseVal r with
-    | some (a, r') => match parseVal r' with
-      | some (b, []) => showBool (pyEq a b)
-      | _ => ["?parse"]
-    | _ => ["?parse"]
-  | "match" :: r =>
-    match parseVal r with
-    | some (f, r') => match parseVal r' with
-      | some (d, []) => showR showBool (filterApplies f d)
-      | _ => ["?parse"]
-    | _ => ["?parse"]
-  | "c01" :: r =>
-    match parseVal r with
-    | some (f, r') => match parseVal r' with
-      | some (d, []) =>
-        showR showBool (filterApplies f d) ++ ["|"] ++ showR showBool (Spec.specMatches f d)
-          ++ ["|"] ++ (Spec.reasons f d).eraseDups ++ ["|"] ++ (Spec.deepLabels f d).eraseDups
-      | _ => ["?parse"]
-    | _ => ["?parse"]
-  | _ => ["?cmd"]
+  match handlers.findSome? (· ts) with
+  | some out => out
+  | none => ["?cmd"]
 
 partial def loop (h : IO.FS.Stream) (out : IO.FS.Stream) : IO Unit := do
   let line ← h.getLine
